@@ -281,7 +281,7 @@ func (e *Engine) globalInit(x *Exec, g *ssa.Global, t Term) {
 	}
 	mv, mp, mvS, mpS, ks, vs := x.mapHeaps(mt)
 	pres := constArray(arraySort(ks, SBool), tFalse)
-	vals := constArray(arraySort(ks, vs), x.w.zeroOf(mt.Elem()))
+	vals := x.zeroArray(arraySort(ks, vs), x.w.zeroOf(mt.Elem()))
 	env := &Env{x: x, cur: x.entry, old: x.entry, vars: map[string]SVal{}, pkg: pkg.Types}
 	for _, el := range lit.Elts {
 		kv, ok := el.(*ast.KeyValueExpr)
@@ -372,7 +372,7 @@ func (e *Engine) genVC(key string) (res *FuncResult) {
 		vals: map[ssa.Value]Term{}, tuples: map[ssa.Value][]Term{}, iptr: map[string]Addr{},
 		heapSorts: map[string]Sort{}, nilAxiom: map[string]bool{}, cardAx: map[string]bool{}, trusted: map[string]bool{}, assumedExterns: map[string]bool{}, dropped: map[string]bool{},
 		exitSt: map[*ssa.BasicBlock]*State{}, exitPC: map[*ssa.BasicBlock]Term{}, edgeCond: map[[2]*ssa.BasicBlock]Term{},
-		forced: map[*ssa.BasicBlock]*edgeState{}, closures: map[string]*ssa.MakeClosure{}}
+		forced: map[*ssa.BasicBlock]*edgeState{}, closures: map[string]*ssa.MakeClosure{}, slInv: map[string]bool{}, allSorts: map[string]Sort{}}
 	res.VC = vc
 	p0 := e.prog.Fset.Position(fn.Pos())
 	res.SrcFile = shortPath(p0.Filename)
@@ -429,7 +429,7 @@ func (e *Engine) genLemmaVC(l *Lemma, pkg *types.Package) (res *FuncResult) {
 	x := &Exec{eng: e, w: w, vc: vc, pkg: pkg,
 		vals: map[ssa.Value]Term{}, tuples: map[ssa.Value][]Term{}, iptr: map[string]Addr{},
 		heapSorts: map[string]Sort{}, nilAxiom: map[string]bool{}, cardAx: map[string]bool{}, trusted: map[string]bool{}, assumedExterns: map[string]bool{}, dropped: map[string]bool{},
-		closures: map[string]*ssa.MakeClosure{}}
+		closures: map[string]*ssa.MakeClosure{}, slInv: map[string]bool{}, allSorts: map[string]Sort{}}
 	x.entry = newState()
 	x.params = map[string]SVal{}
 	x.lets = map[string]SVal{}
